@@ -45,7 +45,10 @@ def run_roundtrip(np, case, ctx):
 	from gambit.sigs.base import dump_signatures, load_signatures, AbstractSignatureArray
 	p = case['payload']
 	obj, spec, arrays, exp_ids, exp_meta = P.build(np, p)
-	path = ctx.fresh_path('.gs')
+	path = ctx.fresh_path(case.get('fname', '.gs'))
+	if case.get('path_as') == 'Path':
+		import pathlib
+		path = pathlib.Path(path)
 	kw = {}
 	if p['compression'] is not None:
 		kw['compression'] = p['compression']
@@ -99,6 +102,8 @@ def run_roundtrip(np, case, ctx):
 	lens = {len(a) for a in arrays}
 	classes = ['roundtrip', f'width={spec.index_dtype}', 'dtype=index_dtype' if not p.get('dtype') else 'dtype=wider_or_signed', f'container={p["container"]}', f'ids={p["idkind"]}',
 	           f'compression={p["compression"]}', 'meta' if p['meta'] is not None else 'no_meta']
+	if sum(len(a) for a in arrays) > 65536:
+		classes.append('values>64Ki')
 	if all(len(a) == 0 for a in arrays):
 		classes.append('all_empty')
 	elif 0 in lens:
@@ -288,7 +293,8 @@ def gen_case(draw, tier):
 	if which == 'cli_info':
 		return {'kind': 'cli_info', 'payload': draw(P.payload(max_sigs=6))}
 	if which == 'roundtrip':
-		return {'kind': 'roundtrip', 'payload': draw(P.payload(allow_big=(tier == 'thorough'))), 'idx_seed': draw(st.integers(0, 2 ** 20))}
+		return {'kind': 'roundtrip', 'payload': draw(P.payload(allow_big=(tier == 'thorough'), allow_medium=True)), 'idx_seed': draw(st.integers(0, 2 ** 20)),
+		        'path_as': draw(st.sampled_from(['str', 'Path'])), 'fname': draw(st.sampled_from(['.gs', '.h5', ' with space.gs', '-ünï.gs', '.GS', '']))}
 	ext = draw(st.sampled_from(['.gs', '.h5', '.txt', '.fasta', '']))
 	if which == 'foreign_bytes':
 		mode = draw(st.sampled_from(['raw', 'raw', 'valid_prefix', 'magic_plus', 'valid_truncated', 'valid_corrupt', 'gzip']))
